@@ -17,6 +17,14 @@
 //!                                       has arrived for a while; obs = per op `<result>@<vpos>`,
 //!                                       compared with NV.Bgzf.MtReaderOps run under the schedule `segs`
 //!   rhst frames gzi ops                 the same history on the single-threaded Reader (C02's model)
+//!   rhv / rhstv                         rh / rhst compared with the ERROR model on the embedded all-good
+//!                                       file (NV.Bgzf.MtReaderBridge: one reader model)
+//!   wapi P level script ops seed dk frames plan
+//!                                       MultithreadedWriter at API-call level over a scripted sink under a
+//!                                       synchronisation plan; obs = result of every call | inner calls |
+//!                                       sink bytes, compared with NV.Sinks.MtApp.mta_model
+//!   wbr  (same args, script Full^j,Fail) last result | inner calls | sink bytes compared with C03's own
+//!                                       writer model through NV.Bgzf.MtWriterBridge.emb_sink
 //! Implementation-only oracles:
 //!   rs  P seed nblocks level            random read/read_exact/seek op sequences, MT vs ST, delayed inflate tasks
 //!   rfd P seed level                    frame-level error, then seek, then finish: the error must not vanish
@@ -762,6 +770,367 @@ fn run_w(c: &Case) -> Obs {
         }
     }
     o
+}
+
+// -------------------------------------------------------------------------------------------
+// wapi: the writer at API-call level -- which call of write_all / flush / finish returns the
+// sink's error.  The gate holds every compress task (so the writer thread cannot write) except at
+// the synchronisation points of the plan: plan[i] = 1: after op i has returned, open the gate and
+// wait until the writer thread has written every block submitted so far or has exited, then close
+// it again; the gate is opened for good before finish().  Compared with NV.Sinks.MtApp.mta_model
+// (through NV.Bgzf.MtWriterApi.c03_writer_api_obs) run under the same plan.
+
+struct PlanGate {
+    open: Mutex<bool>,
+    cv: Condvar,
+    timeouts: Mutex<usize>,
+}
+impl PlanGate {
+    fn set(&self, open: bool) {
+        *self.open.lock().unwrap() = open;
+        self.cv.notify_all();
+    }
+    fn pass(&self) {
+        let mut g = self.open.lock().unwrap();
+        let deadline = Instant::now() + Duration::from_secs(8);
+        while !*g {
+            let now = Instant::now();
+            if now >= deadline {
+                *self.timeouts.lock().unwrap() += 1;
+                break;
+            }
+            g = self.cv.wait_timeout(g, deadline - now).unwrap().0;
+        }
+    }
+}
+
+/// tells when the writer thread has dropped the sink (= its closure returned with an error)
+struct DropSink {
+    inner: FaultySink,
+    dropped: Arc<std::sync::atomic::AtomicBool>,
+}
+impl Write for DropSink {
+    fn write(&mut self, buf: &[u8]) -> io::Result<usize> {
+        self.inner.write(buf)
+    }
+    fn flush(&mut self) -> io::Result<()> {
+        self.inner.flush()
+    }
+}
+impl Drop for DropSink {
+    fn drop(&mut self) {
+        self.dropped.store(true, std::sync::atomic::Ordering::SeqCst);
+    }
+}
+
+const API_KINDS: [(u64, io::ErrorKind); 3] =
+    [(2, io::ErrorKind::Other), (3, io::ErrorKind::BrokenPipe), (4, io::ErrorKind::PermissionDenied)];
+
+fn fmt_script(s: &[Fault]) -> String {
+    if s.is_empty() {
+        return "_".into();
+    }
+    s.iter()
+        .map(|f| match f {
+            Fault::Full => "F".to_string(),
+            Fault::Short(k) => format!("S{k}"),
+            Fault::Interrupted => "I".into(),
+            Fault::Fail(k) => format!("E{}", API_KINDS.iter().find(|(_, x)| x == k).map_or(2, |(c, _)| *c)),
+        })
+        .collect::<Vec<_>>()
+        .join(",")
+}
+
+fn parse_script(s: &str) -> Vec<Fault> {
+    if s == "_" {
+        return vec![];
+    }
+    s.split(',')
+        .map(|t| match &t[..1] {
+            "F" => Fault::Full,
+            "I" => Fault::Interrupted,
+            "S" => Fault::Short(t[1..].parse().unwrap()),
+            _ => {
+                let c: u64 = t[1..].parse().unwrap();
+                Fault::Fail(API_KINDS.iter().find(|(x, _)| *x == c).map_or(io::ErrorKind::Other, |(_, k)| *k))
+            }
+        })
+        .collect()
+}
+
+/// number of blocks submitted once op i has returned
+fn blocks_after(ops: &[Op]) -> Vec<usize> {
+    (1..=ops.len()).map(|i| count_blocks_no_finish(&ops[..i])).collect()
+}
+
+fn count_blocks_no_finish(ops: &[Op]) -> usize {
+    let (mut buf, mut n) = (0usize, 0usize);
+    for o in ops {
+        match *o {
+            Op::W(k) => {
+                buf += k;
+                n += buf / MAX_BUF;
+                buf %= MAX_BUF;
+            }
+            Op::F => {
+                if buf > 0 {
+                    n += 1;
+                    buf = 0;
+                }
+            }
+        }
+    }
+    n
+}
+
+struct ApiRun {
+    results: Vec<String>,
+    sync_timeouts: usize,
+}
+
+fn drive_api(ops: &[Op], data: &[u8], level: u64, sink: FaultySink, plan: &[bool], frame_lens: &[usize], gate: &PlanGate) -> ApiRun {
+    let dropped = Arc::new(std::sync::atomic::AtomicBool::new(false));
+    let ds = DropSink {
+        inner: sink.clone(),
+        dropped: dropped.clone(),
+    };
+    let after = blocks_after(ops);
+    let mut prefix = vec![0usize];
+    for l in frame_lens {
+        prefix.push(prefix.last().unwrap() + l);
+    }
+    let mut results = vec![];
+    let mut sync_timeouts = 0;
+    let mut w = bgzf::io::multithreaded_writer::Builder::default()
+        .set_compression_level(level_of(level))
+        .build_from_writer(ds);
+    let mut off = 0;
+    for (i, o) in ops.iter().enumerate() {
+        let r = match *o {
+            Op::W(n) => {
+                let r = w.write_all(&data[off..off + n]);
+                off += n;
+                r
+            }
+            Op::F => w.flush(),
+        };
+        match r {
+            Ok(()) => results.push("Ok".to_string()),
+            Err(e) => {
+                results.push(format!("Err:{}", nv::errkind(&e)));
+                gate.set(true);
+                return ApiRun { results, sync_timeouts };
+            }
+        }
+        if plan.get(i).copied().unwrap_or(false) {
+            gate.set(true);
+            let want = prefix[after[i].min(prefix.len() - 1)];
+            let deadline = Instant::now() + Duration::from_secs(5);
+            loop {
+                if dropped.load(std::sync::atomic::Ordering::SeqCst) {
+                    // the receiver goes away with the thread's closure: give it a moment
+                    thread::sleep(Duration::from_millis(2));
+                    break;
+                }
+                if sink.bytes().len() >= want {
+                    break;
+                }
+                if Instant::now() >= deadline {
+                    sync_timeouts += 1;
+                    break;
+                }
+                thread::sleep(Duration::from_micros(100));
+            }
+            gate.set(false);
+        }
+    }
+    gate.set(true);
+    match w.finish() {
+        Ok(_) => results.push("Ok".to_string()),
+        Err(e) => results.push(format!("Err:{}", nv::errkind(&e))),
+    }
+    ApiRun { results, sync_timeouts }
+}
+
+fn run_wapi(c: &Case) -> Obs {
+    let (p, level) = (c.u(0), c.u(1));
+    if let Err(o) = check_pool(p) {
+        return o;
+    }
+    let script = parse_script(&c.args[2]);
+    let ops = parse_ops(&c.args[3]);
+    let data = Arc::new(gen_data(c.u(4), total_bytes(&ops), c.u(5)));
+    let frame_lens: Vec<usize> = if c.args[6] == "_" { vec![] } else { c.args[6].split(',').map(|f| f.len() / 2).collect() };
+    let plan: Vec<bool> = if c.args[7] == "_" { vec![] } else { c.args[7].bytes().map(|b| b == b'1').collect() };
+    let ctx = format!("P={p} level={level} script={} ops={} plan={}", c.args[2], c.args[3], c.args[7]);
+
+    // single-threaded reference on a sink that never fails
+    let st_sink = FaultySink::new(vec![]);
+    if let Outcome::Panicked(m) = nv::guarded(AssertUnwindSafe(|| drive_st_writer(&ops, &data, level, st_sink.clone()))) {
+        return Obs::fail("-", "stw-panic", format!("{ctx} {m}"));
+    }
+    let st_bytes = st_sink.bytes();
+
+    let gate = Arc::new(PlanGate {
+        open: Mutex::new(false),
+        cv: Condvar::new(),
+        timeouts: Mutex::new(0),
+    });
+    {
+        let g = gate.clone();
+        verif_gate::set(Some(Arc::new(move |k, _s| {
+            if k == Kind::Deflate {
+                g.pass();
+            }
+        })));
+    }
+    let sink = FaultySink::new(script.clone());
+    let (tx, rx) = mpsc::channel();
+    {
+        let (ops2, data2, sink2, plan2, gate2, fl2) = (ops.clone(), data.clone(), sink.clone(), plan.clone(), gate.clone(), frame_lens.clone());
+        thread::spawn(move || {
+            let r = nv::guarded(AssertUnwindSafe(|| drive_api(&ops2, &data2, level, sink2, &plan2, &fl2, &gate2)));
+            let _ = tx.send(r);
+        });
+    }
+    let w = rx.recv_timeout(Duration::from_secs(20));
+    gate.set(true);
+    let hung = w.is_err();
+    let w = match w {
+        Ok(x) => Some(x),
+        Err(_) => rx.recv_timeout(Duration::from_secs(8)).ok(),
+    };
+    quiesce();
+    verif_gate::set(None);
+    let run = match w {
+        Some(Outcome::Done(r)) if !hung => r,
+        Some(Outcome::Panicked(m)) => return Obs::fail("Panic", "mtw-api-panic", format!("{ctx} {m}")),
+        _ => return Obs::fail("Hang", "mtw-api-hang", ctx),
+    };
+    let bytes = sink.bytes();
+    // kind wbr: the same life, compared with C03's OWN writer model pushed through the embedding
+    // into C14's sink (NV.Bgzf.MtWriterBridge): only the last result is schedule-independent
+    let shown = if c.kind == "wbr" {
+        run.results.last().cloned().unwrap_or_else(|| "_".to_string())
+    } else if run.results.is_empty() {
+        "_".to_string()
+    } else {
+        run.results.join(",")
+    };
+    let obs = format!("{shown}|calls={}|bytes={}", sink.calls(), hist::canon_bytes(&bytes));
+    let nblocks = count_blocks(&ops);
+    let o = Obs::ok(obs, !script.is_empty() && nblocks >= 2);
+    if run.sync_timeouts > 0 || *gate.timeouts.lock().unwrap() > 0 {
+        return o.with_verdict(Err(("mtw-api-writer-thread-stalled".into(), ctx)));
+    }
+    // the property at API level: every call before the last returned Ok (the caller stops at the
+    // first Err); a consumed failure is returned by the last call made, with its kind; the sink
+    // holds a prefix of the single-threaded file, the whole file iff finish() returned Ok
+    let injected = sink.failures();
+    let last_err = run.results.last().is_some_and(|r| r.starts_with("Err:"));
+    let real_fail = script.iter().take(sink.calls()).find_map(|f| match f {
+        Fault::Fail(k) if *k != io::ErrorKind::Interrupted => Some(format!("Err:{k:?}")),
+        _ => None,
+    });
+    if let Some(k) = &real_fail {
+        if injected > 0 && run.results.last() != Some(k) {
+            return o.with_verdict(Err((
+                if last_err { "mtw-api-sink-error-kind-changed" } else { "mtw-api-sink-error-dropped" }.into(),
+                format!("{ctx} results={}", run.results.join(",")),
+            )));
+        }
+    } else if last_err {
+        return o.with_verdict(Err(("mtw-api-error-without-fault".into(), format!("{ctx} results={}", run.results.join(",")))));
+    }
+    if !st_bytes.starts_with(&bytes) {
+        return o.with_verdict(Err(("mtw-api-sink-not-a-prefix-of-st".into(), ctx)));
+    }
+    if !last_err && (bytes != st_bytes || run.results.len() != ops.len() + 1) {
+        return o.with_verdict(Err(("mtw-api-output-differs-from-st".into(), ctx)));
+    }
+    o
+}
+
+fn gen_wapi(rng: &mut Rng, w: &mut CaseWriter, n: u64) {
+    for i in 0..n {
+        let p = *rng.pick(&[2u64, 3, 4, 6, 8]);
+        let level = *rng.pick(&[1u64, 6]);
+        let nops = rng.range(1, 6);
+        let big = i % 5 == 2;
+        let mut ops = vec![];
+        for _ in 0..nops {
+            ops.push(if rng.chance(1, 4) {
+                Op::F
+            } else if big && rng.chance(1, 2) {
+                Op::W(*rng.pick(&[MAX_BUF - 1, MAX_BUF, MAX_BUF + 1, 2 * MAX_BUF]))
+            } else {
+                Op::W(rng.below(80) as usize)
+            });
+        }
+        let seed = rng.next() >> 8;
+        let data = gen_data(seed, total_bytes(&ops), 1);
+        // the frames of the fault-free life (the model does not compress)
+        let ff = FaultySink::new(vec![]);
+        let _ = drive_mt_writer(&ops, &data, level, ff.clone());
+        let bytes = ff.bytes();
+        let (frames, _) = split_frames(&bytes);
+        if frames.is_empty() {
+            continue;
+        }
+        let data_frames: Vec<String> = frames[..frames.len() - 1].iter().map(|&(s, l)| nv::hex(&bytes[s..s + l])).collect();
+        let ncalls = 14 * data_frames.len() + 1;
+        let mut script: Vec<Fault> = match i % 6 {
+            0 => vec![],
+            1 | 2 => vec![Fault::Full; rng.below(14.min(ncalls as u64)) as usize],
+            _ => vec![Fault::Full; rng.below(ncalls as u64 + 2) as usize],
+        };
+        if i % 6 != 0 {
+            if i % 4 == 3 {
+                // short writes and interruptions before the failure: write_all retries
+                for f in script.iter_mut() {
+                    match rng.below(5) {
+                        0 => *f = Fault::Short(1 + rng.below(3) as usize),
+                        1 => *f = Fault::Interrupted,
+                        _ => {}
+                    }
+                }
+            }
+            script.push(Fault::Fail(API_KINDS[(i % 3) as usize].1));
+        }
+        let after = blocks_after(&ops);
+        for style in 0..3 {
+            let mut plan = vec![];
+            let mut synced = 0usize;
+            for j in 0..ops.len() {
+                let next = if j + 1 < ops.len() { after[j + 1] } else { after[j] };
+                let want = match style {
+                    0 => false,
+                    1 => true,
+                    _ => rng.chance(1, 2),
+                };
+                // never more than P blocks submitted while the gate is closed: send() would block
+                let sync = want || next - synced > p as usize;
+                if sync {
+                    synced = after[j];
+                }
+                plan.push(sync);
+            }
+            let pure = script.iter().all(|f| matches!(f, Fault::Full | Fault::Fail(_)));
+            w.push(
+                if pure && style == 2 { "wbr" } else { "wapi" },
+                vec![
+                    p.to_string(),
+                    level.to_string(),
+                    fmt_script(&script),
+                    fmt_ops(&ops),
+                    seed.to_string(),
+                    "1".into(),
+                    if data_frames.is_empty() { "_".into() } else { data_frames.join(",") },
+                    if plan.is_empty() { "_".into() } else { plan.iter().map(|b| if *b { '1' } else { '0' }).collect() },
+                ],
+            );
+        }
+    }
 }
 
 fn run_wst(c: &Case) -> Obs {
@@ -1626,8 +1995,10 @@ fn gen_rh(rng: &mut Rng, w: &mut CaseWriter, n: u64) {
             _ => full,
         };
         let policy = [1u64, 2, 3, 4, 1, 0][(i % 6) as usize];
+        // every other well-formed history is compared with the ERROR model run on the embedded
+        // all-good file (kind rhv: NV.Bgzf.MtReaderBridge), the others with the op-level model
         w.push(
-            "rh",
+            if i % 2 == 1 { "rhv" } else { "rh" },
             vec![
                 p.to_string(),
                 hist::fmt_frames(&fs),
@@ -1644,7 +2015,10 @@ fn gen_rh(rng: &mut Rng, w: &mut CaseWriter, n: u64) {
                 .copied()
                 .filter(|o| !matches!(o, hist::Op::GetMut | hist::Op::Finish))
                 .collect();
-            w.push("rhst", vec![hist::fmt_frames(&fs), hist::fmt_index(&index), hist::fmt_ops(&st_ops)]);
+            w.push(
+                if i % 8 == 4 { "rhstv" } else { "rhst" },
+                vec![hist::fmt_frames(&fs), hist::fmt_index(&index), hist::fmt_ops(&st_ops)],
+            );
         }
     }
 }
@@ -1928,6 +2302,8 @@ fn generate(rng: &mut Rng, tier: &str, w: &mut CaseWriter) {
     for p in [1u64, 3] {
         w.push("rce", vec![p.to_string(), rng.next().to_string()]);
     }
+    // the writer at API-call level against NV.Sinks.MtApp (last: the earlier kinds keep their cases)
+    gen_wapi(rng, w, 10 * scale);
 }
 
 fn permute(p: &mut Vec<usize>, k: usize, out: &mut Vec<Vec<usize>>) {
@@ -1963,10 +2339,11 @@ fn run(c: &Case) -> Obs {
     match c.kind.as_str() {
         "w" => run_w(c),
         "wst" => run_wst(c),
+        "wapi" | "wbr" => run_wapi(c),
         "r" => run_r(c),
         "rs" => run_rs(c),
-        "rh" | "rhe" => run_rh(c),
-        "rhst" | "rhste" => run_rhst(c),
+        "rh" | "rhv" | "rhe" => run_rh(c),
+        "rhst" | "rhstv" | "rhste" => run_rhst(c),
         "rfd" => run_rfd(c),
         "rce" => run_rce(c),
         k => Obs::fail("-", "harness-unknown-kind", k),
@@ -1975,7 +2352,7 @@ fn run(c: &Case) -> Obs {
 
 fn case_pool(c: &Case) -> u64 {
     match c.kind.as_str() {
-        "w" | "r" | "rs" | "rh" | "rhe" | "rfd" | "rce" => c.u(0),
+        "w" | "wapi" | "wbr" | "r" | "rs" | "rh" | "rhv" | "rhe" | "rfd" | "rce" => c.u(0),
         _ => 4,
     }
 }
